@@ -321,6 +321,12 @@ pub fn transform_probe(input: &[u8], cfg: &TransformConfig) -> Probe {
     }
 }
 
+/// `invalid_reference` of events.rs: the offending text of the first `&` that begins no well-formed
+/// reference, if any.
+pub fn invalid_reference(s: &str, has_doctype: bool) -> Option<String> {
+    crate::events::verif_invalid_reference(s, has_doctype)
+}
+
 /// The reader's view of a document: (event kind, raw bytes between the delimiters) per event.
 pub fn read_events(input: &[u8]) -> R<Vec<(String, Vec<u8>)>> {
     use quick_xml::events::Event;
